@@ -771,7 +771,15 @@ impl<F: FileSystem + Sync> Server<F> {
                     max_readahead
                 };
 
-                let enabled = capable & want;
+                let mut enabled = capable & want;
+                // The client only looks at `flags2` when FUSE_INIT_EXT is set in `flags`, so any
+                // enabled extended bit must come with the marker, whether or not the
+                // filesystem asked for it. `capable` has it, extended bits cannot be there
+                // otherwise.
+                #[cfg(target_os = "linux")]
+                if enabled.bits() >> 32 != 0 {
+                    enabled |= capable & FsOptions::INIT_EXT;
+                }
                 let enabled_flags = enabled.bits();
                 let mut out = InitOut {
                     major: KERNEL_VERSION,
